@@ -13,6 +13,10 @@ def run(chk):
         case['iters'] = rng.choice([3, 10, 40, 80])
         if _ % 3 == 1:
             case['start'] = H.random_start(rng, case['lo'], case['hi'])
+        if _ % 4 == 2:
+            case['discrete'] = rng.choice([1, 2])      # a problem that also declares discrete parameters (ignored by this version)
+        if _ % 4 == 3 and case['n'] >= 2:
+            case['reassign_parameters_at'] = rng.choice([3, 6])      # the user replaces solver.parameters by a new object in the middle
         res = O.guarded(lambda c: O.c02_steps(c, check04=False, check06=True), case)
         fails = res[0] if isinstance(res, tuple) else res
         chk.evaluations += 1
